@@ -222,3 +222,16 @@ pub fn wide_container<const B: u8>() {
     kani::cover!(items == 3 || items == 2);
     kani::cover!(items > 3);
 }
+
+/// Indefinite-length strings (`5f 41 a 42 b c ff` / the text analogue) and every strict prefix:
+/// one harness per concrete cut point K; skip() is Ok only on the whole item.
+pub fn chunked_prefix<const MAJOR: u8, const K: usize>() {
+    let a: [u8; 3] = kani::any();
+    let m = MAJOR << 5;
+    let t = if MAJOR == 3 { 0x7f } else { 0xff };
+    let buf = [m | 31, m | 1, a[0] & t, m | 2, a[1] & t, a[2] & t, 0xff, 0x00];
+    let mut d = Decoder::new(&buf[..K]);
+    let r = d.skip();
+    if K >= 7 { assert!(r.is_ok() && d.position() == 7, "skip() did not end behind the break of the indefinite string") }
+    else { assert!(r.is_err(), "skip() accepted a strict prefix of an indefinite string") }
+}
